@@ -63,6 +63,7 @@ func TestWitness(t *testing.T) {
 	c.Skip = []string{fForEachEmpty}
 	add(fEmptyRoundTrip, c)
 	add(fStrKeyJSON, one(wIDL2, "$.m{\"\\a\"}"))
+	add(fStrKeyUTF8, one(wIDL2, "$.m{\"\\xff\"}"))
 	c = one(wTD, "$.ts.x")
 	add(fStringTypedef, c)
 	ws = append(ws, w{fNegID + "-json", "json", jsonCase{Class: "hand", Doc: []byte(`{"path":"$","type":"Struct","children":[{"path":-1,"type":"Scalar"}]}`)}})
